@@ -1,6 +1,6 @@
 SPECIFICATION Spec
 CONSTANTS
-  LawId = "lin"
-  LawTable <- EmptyTable
+  LawId = "table"
+  LawTable <- TableFromFile
   FixedJunction = TRUE
 INVARIANT Report
